@@ -62,6 +62,9 @@ def run(ctx):
                          % (unknown, len(bev)))
     if unknown > len(bev) // 2:
         ctx.extra["balancer_rank_unobservable"] = True
+    if bev and unknown == len(bev):
+        # the keep-balance clause would be entirely unjudged: not a verdict, but not a pass either
+        raise vlib.InfraError("keep-balance's rank could not be observed in any case (pull/trash policy changed?)")
     merged = []
     for t in traces:
         phase = 0
